@@ -537,7 +537,7 @@ var goHdr = regexp.MustCompile(`^goroutine \d+ \[([^\],]+)`)
 
 // markers of the goroutines that belong to the system under test
 // (a goroutine that has not started yet shows only its go-statement wrapper and its "created by" line)
-var ours = []string{"writer/service.(*InsertServiceV2).Run", "created by main.(*runner",
+var ours = []string{"writer/service.(*InsertServiceV2).Run", "created by main.(*runner", "created by main.(*spySvc",
 	"created by github.com/metrico/qryn/writer/controller", "created by github.com/metrico/qryn/writer/utils/unmarshal"}
 
 // parked reports whether every goroutine of the system under test is blocked on a channel (select in Run,
